@@ -33,6 +33,12 @@ NOTES = {
  "C13-3": "missed by C13 at first (no iterator faults); every 5th C13 case now ends with whole-interval streams during which one partition worker's iterator answers a single transient error",
  "C16-3": "missed by C16 at first (engines reporting one partition only); a pre-split TiKV mock and a multi-partition memkv were added to C16's engine list",
  "C19-3": "missed by C19 at first (watch caches never wrapped while watches were catching up); a workload with an 8-64 event cache, two continuous writers and four clients registering watches from inside the cache was added",
+ "C10-3": "missed by C10 at first (its Backend.List part ran on memkv only); the prefix and raw-range reads of C10 now also run on a TiKV mock pre-split into regions and on a memkv reporting several partitions; C13, C16 and C03 caught it as it was",
+ "C12-3": "missed by C12 at first (no key of its scripts was written with a ttl); two of the seven script keys are now Event records (<prefix>/events/...)",
+ "C14-3": "missed by C14 at first (no release-shaped update in its programs); programs ending in client-go's release (an Update naming no holder, sent without a fresh Get) were added to the enumeration (2x gwgr, 2x gwr, 3x gwr), the samples and the concurrent porcupine histories",
+ "C15-3": "missed by C15 at first (the future leader never looked at the lock before taking it); nodes standing by now poll the lock during the old leader's term as client-go's election loop does, and a third of the fail-over cases continue with a second fail-over to a third node",
+ "C17-3": "missed by C17 at first (events were only created once); some events are now deleted and created again before the first compaction, so the index record that must expire was written over a deletion marker",
+ "C18-3": "missed by C18 at first (watches were opened from the next revision only); etcd and native watches from revision 0 ('from now') were added to the role matrix",
  "C20-3": "missed by C20 at first: the node ends the process through klog.Fatal, which the driver used to classify as an inconclusive child death; the worker now lets klog FATAL lines through to stderr and the driver reports 'crash klog.Fatal in <file>' as a violation (except the deliberate 'leader lost' exit)",
 }
 for d in sorted(glob.glob('/verif/seeded/C*')):
